@@ -23,7 +23,7 @@ from wv.par import pmap
 
 CORE = ("requests", "total_outbufs_len", "will_close", "close_when_flushed", "connected")
 OBJS = ["total_outbufs_len", "close_when_flushed", "will_close", "requests_lock", "outbuf_lock", "requests", "connected", "trigger", "sock", "next", "loop", "L"]
-SUFFIX = re.compile(r"_(\d|a|c|s|e|io|w|ws|svc|scio|scw|hww|hws|hxw|hxs|xw|xs)$")
+SUFFIX = re.compile(r"_(\d|a|c|s|e|x|io|w|ws|svc|scio|scw|hww|hws|hxw|hxs|xw|xs)$")
 KINDS = ("rd", "wr", "acq", "tryacq", "rel", "notify", "wait", "send", "recv", "drain", "drained", "pull", "pulled", "select", "accept", "close", "app")
 CLIENT_LABELS = ("cl_connect", "cl_send", "cl_read", "cl_await100", "cl_close")
 INTERIM = 25
@@ -102,7 +102,7 @@ def in_slice(scn):
     reqs = c[0]["requests"]
     if [r["k"] for r in reqs] != list(range(1, len(reqs) + 1)):
         return False
-    if any(r.get("kind", "plain") not in ("plain", "close", "expect", "http10", "http10_ka", "body", "chunked", "head") or r.get("headers") for r in reqs):
+    if any(r.get("kind", "plain") not in ("plain", "close", "expect", "http10", "http10_ka", "body", "chunked", "head") or r.get("headers") or r.get("lead") for r in reqs):
         return False
     if set(scn["adj"]) - {"channel_request_lookahead", "send_bytes", "outbuf_high_watermark", "log_socket_errors"}:
         return False
@@ -213,7 +213,7 @@ def constants_of(scn):
         rf.append("ok" if e is None else ("eof" if e == "eof" else ("disc" if e in _DISCONNECTED else "hard")))
     return {"rfaults": rf, "sends": sends, "writes": writes, "interim": INTERIM, "lookahead": a.get("channel_request_lookahead", 0),
             "sendbytes": a.get("send_bytes", 1), "hwm": a.get("outbuf_high_watermark", 16777216), "sndbuf": c.get("sndbuf", 65536),
-            "room": -1 if room is None else room, "ops": ops, "sfaults": sf, "workers": scn.get("workers", 1)}
+            "room": -1 if room is None else room, "ops": ops, "sfaults": sf, "workers": scn.get("workers", 1), "usepoll": bool(scn.get("use_poll", False))}
 
 
 def record(args):
@@ -284,7 +284,7 @@ def mc_scenarios(thorough):
     R = lambda r, c=False, w="full": {"rid": r, "close": c, "what": w}
     O = lambda op, n=0, after=0: {"op": op, "n": n, "after": after}
     SEND, ALL, AW = O("send"), O("read", -1, 1), lambda n: O("await100", n)
-    base = {"interim": 1, "sendbytes": 1, "hwm": 1000, "sndbuf": 100, "room": -1, "sfaults": [], "rfaults": [], "lookahead": 0, "workers": 1}
+    base = {"interim": 1, "sendbytes": 1, "hwm": 1000, "sndbuf": 100, "room": -1, "sfaults": [], "rfaults": [], "lookahead": 0, "workers": 1, "usepoll": False}
 
     def M(**kw):
         d = dict(base)
@@ -327,6 +327,8 @@ def mc_scenarios(thorough):
           M(sends=[[R(1)]], writes=[[2, 2, 2]], ops=[SEND, O("read", 1, 1), O("read", -1, 2)], room=1, hwm=1, sfaults=["ok", "ok", "ok", "ok", "hard"])),
          ("a send of the I/O thread fails while the worker is paused between two requests, la=1", "C11 only",   # (reproduces known finding K-C11-...)
           M(sends=[[R(1), R(2)]], writes=[[3], [1]], ops=[SEND, O("read", 1, 2)], room=1, hwm=1, sfaults=["ok", "ok", "ok", "hard"], lookahead=1), None),
+         ("response above the mark, follower queued, client goes away while the worker is between the two, la=1", "C12 C13 only",   # (reproduces known finding K-C12-wait-after-teardown)
+          M(sends=[[R(1), R(2)]], writes=[[2], [1]], ops=[SEND, O("close")], room=0, hwm=1, lookahead=1), None),
          ("second recv fails while the first request runs, la=1", "C13 C11",
           M(sends=[[R(1)], [R(2)]], writes=[[2, 1], [1]], ops=[SEND, SEND], rfaults=["ok", "hard"], lookahead=1), None),
          ("recv reports a disconnect errno with a request queued, la=1", "C13",
@@ -351,7 +353,7 @@ def mc_scenarios(thorough):
     return S
 
 
-def model_check(chk, pid, scns=None, n_traces=None):
+def model_check(chk, pid, scns=None, n_traces=None, mc_part=True, replay_part=True, label=""):
     """(1) TLC exhausts the interleavings of the model on small scenarios; (2) executions of the
     real server, recorded at the model's alphabet, are validated against the model."""
     def mc(item):
@@ -360,17 +362,31 @@ def model_check(chk, pid, scns=None, n_traces=None):
         try:
             write_module(wd, "MC_Chan", cfg, workers=cfg["workers"])
             text = "SPECIFICATION Spec\nCONSTANTS CfgSet <- MCfgSet\nWorkers <- MWorkers\nCHECK_DEADLOCK FALSE\n" + "".join("INVARIANT %s\n" % i for i in MC_INVS)
-            if item[3]:
-                text += "PROPERTY ComesToRest\n"
-            return tlc.run("MC_Chan", text, workdir=wd, workers=5, timeout=3000)
+            r = tlc.run("MC_Chan", text + ("PROPERTY ComesToRest\n" if item[3] else ""), workdir=wd, workers=5, timeout=3000)
+            r2 = None
+            if r.violated:
+                # a listed finding that names a constraint: search the rest of the scenario's state space without it
+                from wv.core import _match
+                for f in chk.findings:
+                    if f.get("mc_constraint") and _match(f.get("match", {}), {"kind": "model", "invariant": r.violated, "scenario": name}):
+                        r2 = tlc.run("MC_Chan", text + "CONSTRAINT %s\n" % f["mc_constraint"], workdir=wd, workers=5, timeout=3000)
+                        break
+            return r, r2
         finally:
             shutil.rmtree(wd, ignore_errors=True)
     # quick: the small scenarios tagged for the property (with liveness); thorough: every small scenario (with liveness)
     # plus the larger variants and the multi-worker scenarios tagged for the property (safety)
     items = [it for it in mc_scenarios(chk.thorough)
              if pid in it[2].split() or (chk.thorough and "thorough" not in it[2].split() and "only" not in it[2].split())]
+    if not mc_part:
+        items = []
     with cf.ThreadPoolExecutor(3) as ex:
-        for item, r in zip(items, ex.map(mc, items)):
+        for item, (r, r2) in zip(items, ex.map(mc, items)):
+            if r2 is not None:
+                chk.add_tlc("MC:Channel %s [states of the listed finding excluded]" % item[1], r2, "every other interleaving; safety invariants")
+                if r2.violated:
+                    chk.violation({"kind": "model_beyond_listed_finding", "invariant": r2.violated, "scenario": item[1]},
+                                  "Channel.tla violates %s in scenario '%s' also outside the listed finding; last state:\n%s" % (r2.violated, item[1], "\n".join(r2.trace[-1:])[:1200]))
             chk.add_tlc("MC:Channel %s" % item[1], r, "every interleaving at visible-operation granularity" + ("; safety invariants + liveness (comes to rest under fair scheduling)" if item[3] else "; safety invariants"))
             if r.violated:
                 chk.violation({"kind": "model", "invariant": r.violated, "scenario": item[1]},
@@ -378,7 +394,7 @@ def model_check(chk, pid, scns=None, n_traces=None):
     # ---- trace validation ---------------------------------------------------
     bound = [(s, constants_of(s)) for s in (scns or [])]
     bound = [(s, c) for s, c in bound if c is not None]
-    chk.extra["scenarios_bound_to_Channel_tla"] = [s.get("name") for s, _ in bound]
+    chk.extra["scenarios_bound_to_Channel_tla"] = chk.extra.get("scenarios_bound_to_Channel_tla", []) + [s.get("name") for s, _ in bound]
     if not bound:
         return
     n = n_traces if n_traces is not None else (36 if chk.thorough else 12)
@@ -411,7 +427,7 @@ def model_check(chk, pid, scns=None, n_traces=None):
             items.append((workers, traces[i:i + CH]))
     with cf.ThreadPoolExecutor(6) as ex:
         for (workers, traces), r in zip(items, ex.map(tvrun, items)):
-            chk.add_tlc("TV:Channel %d worker(s), %d scenarios" % (workers, len({t["scn"] for t in traces})), r, "%d recorded executions validated step by step" % len(traces))
+            chk.add_tlc("TV:Channel %s%d worker(s), %d scenarios" % (label and label + " ", workers, len({t["scn"] for t in traces})), r, "%d recorded executions validated step by step" % len(traces))
             acc = {t[0] for t in tlc.printed_tuples(r, "ACC")}
             rej = {t[0]: t for t in tlc.printed_tuples(r, "REJ")}
             if len(acc) + len(rej) != len(traces):
@@ -430,7 +446,8 @@ def model_check(chk, pid, scns=None, n_traces=None):
                     k = min(max(int(t[1]) - 1, 0), len(tr["ev"]) - 1)
                     step = tr["ev"][k].get("i", 0) if tr["ev"] else 0
                     around.append((tr["scn_obj"], tr["choices"], step - 25, step + 60, 120 if chk.thorough else 50))
-    replay_model(chk, pid, bound)
+    if replay_part:
+        replay_model(chk, pid, bound)
     if around:
         # drift-guided search: the executions left the model at these points - look for property violations right
         # there (single pre-emptions around the deviation), judged by the observable-event monitor
